@@ -43,6 +43,7 @@ type unit struct {
 	tags   []string // build tags
 	files  []string // base names; nil = every non-test file that matches the tags
 	only   []string // if non-nil, only these function names (and what they call)
+	onlyRecv []string // if non-nil, only methods of these receiver types (and plain functions)
 	deps   []string // units whose functions may be called (already translated)
 	// effect units: functions with a *bufio.Reader / io.Reader / io.Writer parameter become state transformers (Base/GoEff.v)
 	imports string            // extra modules the generated file imports
@@ -69,6 +70,16 @@ type unit struct {
 	loggedFuncs map[string]bool
 	// the state receiver is assumed non-nil: `recv == nil` is false (the nil case is go2coq's nil-guard obligation)
 	recvNonNil bool
+	// fields of type *bytes.Buffer of state structs: carried as `option (list N)` (nil, or the content); WriteByte / Write /
+	// Bytes / Reset act on the content, Cap is answered by the environment
+	bufferFields map[string][]string
+	// package variables of type *sync.Pool whose Get().(*bytes.Buffer) yields an empty buffer and whose Put is logged
+	pools map[string]bool
+	// comma-ok type assertions on opaque fields: struct -> field -> asserted interface names; the record carries one flag each
+	asserts map[string]map[string][]string
+	// a method that starts with recv.<mutex>.Lock(); defer recv.<mutex>.Unlock(): the bracket is dropped (single-threaded
+	// reading of one call; that every method is bracketed is lockgen's obligation)
+	mutexBrackets bool
 }
 
 type stub struct {
@@ -107,6 +118,13 @@ var units = []unit{
 		stateStructs: []string{"Event"}, opaque: map[string][]string{"Event": {"w"}},
 		depUnits:    map[string]string{"github.com/rs/zerolog/internal/json": "JsonSrc"},
 		loggedFuncs: map[string]bool{"putEvent": true}, recvNonNil: true},
+	{out: "TriggerSrc", pkgDir: ".", files: []string{"writer.go"}, only: []string{"WriteLevel", "trigger", "Trigger", "Close"}, onlyRecv: []string{"TriggerLevelWriter"},
+		imports: "Base.GoEff Base.GoExt", section: "Variable env_TriggerLevelWriterBufferReuseLimit : Z.\nVariable ans : nat -> oval.",
+		stateStructs: []string{"TriggerLevelWriter"}, opaque: map[string][]string{"TriggerLevelWriter": {"Writer"}},
+		bufferFields: map[string][]string{"TriggerLevelWriter": {"buf"}}, pools: map[string]bool{"triggerWriterPool": true},
+		asserts:       map[string]map[string][]string{"TriggerLevelWriter": {"Writer": {"LevelWriter"}}},
+		envVars:       map[string]bool{"TriggerLevelWriterBufferReuseLimit": true},
+		externs:       map[string]bool{"bytes.IndexByte": true}, mutexBrackets: true},
 	{out: "LevelSrc", pkgDir: ".", files: []string{"log.go"}, only: []string{"String", "ParseLevel"},
 		imports: "Base.GoEff",
 		section: "Variable env_LevelTraceValue env_LevelDebugValue env_LevelInfoValue env_LevelWarnValue env_LevelErrorValue env_LevelFatalValue env_LevelPanicValue : list N.\nVariable env_LevelFieldMarshalFunc : Z -> list N.",
@@ -174,6 +192,7 @@ type pkgCtx struct {
 	stubFn  map[*types.Func]bool
 	clkFn   map[*types.Func]bool          // takes the clock oracle
 	stFields map[string][]*types.Var      // state struct name -> the fields carried in its record
+	stBuf    map[string]map[string]bool   // state struct name -> its *bytes.Buffer fields
 	stOpaque map[string]map[string]bool   // state struct name -> its opaque (interface-typed) fields
 	valFn    map[*types.Func]bool         // `Ok (expression)`: also available as the plain value <name>_val
 }
@@ -225,7 +244,7 @@ func translateUnit(repo string, u unit) (g genOut, err error) {
 	p := &pkgCtx{fset: fset, info: info, pkg: pkg, funcs: map[*types.Func]*ast.FuncDecl{}, fname: map[*types.Func]string{},
 		done: map[*types.Func]bool{}, fuelFn: map[*types.Func]bool{}, orcFn: map[*types.Func]bool{}, divFn: map[*types.Func]bool{}, skipped: map[*types.Func]string{}, globals: map[*types.Var]string{},
 		u: u, effFn: map[*types.Func]bool{}, recOf: map[*types.Func]*types.Func{}, stubFn: map[*types.Func]bool{},
-		clkFn: map[*types.Func]bool{}, stFields: map[string][]*types.Var{}, stOpaque: map[string]map[string]bool{}, valFn: map[*types.Func]bool{}}
+		clkFn: map[*types.Func]bool{}, stFields: map[string][]*types.Var{}, stOpaque: map[string]map[string]bool{}, stBuf: map[string]map[string]bool{}, valFn: map[*types.Func]bool{}}
 	want := map[string]bool{}
 	for _, f := range u.files {
 		want[f] = true
@@ -267,6 +286,20 @@ func translateUnit(repo string, u unit) (g genOut, err error) {
 				if !keep {
 					p.skipped[obj] = "not selected"
 					continue
+				}
+			}
+			if len(u.onlyRecv) > 0 {
+				if sig := obj.Type().(*types.Signature); sig.Recv() != nil {
+					keep := false
+					for _, r := range u.onlyRecv {
+						if recvName(sig.Recv().Type()) == r {
+							keep = true
+						}
+					}
+					if !keep {
+						p.skipped[obj] = "not selected"
+						continue
+					}
 				}
 			}
 			if st, ok := u.stubs[name]; ok {
@@ -323,10 +356,24 @@ func translateUnit(repo string, u unit) (g genOut, err error) {
 			opq[on] = true
 		}
 		p.stOpaque[sn] = map[string]bool{}
+		p.stBuf[sn] = map[string]bool{}
+		isBuf := map[string]bool{}
+		for _, bn := range u.bufferFields[sn] {
+			isBuf[bn] = true
+		}
 		type rfield struct{ name, typ string }
 		var rf []rfield
 		for i := 0; i < st.NumFields(); i++ {
 			fv := st.Field(i)
+			if isBuf[fv.Name()] {
+				pt, isP := fv.Type().(*types.Pointer)
+				if !isP || !isNamed(pt.Elem(), "bytes", "Buffer") {
+					return g, fmt.Errorf("buffer field %s.%s is not a *bytes.Buffer", sn, fv.Name())
+				}
+				p.stBuf[sn][fv.Name()] = true
+				rf = append(rf, rfield{fv.Name(), "option (list N)"})
+				continue
+			}
 			if opq[fv.Name()] {
 				if sl, isSl := fv.Type().Underlying().(*types.Slice); isSl {
 					if _, isIface := sl.Elem().Underlying().(*types.Interface); !isIface {
@@ -348,7 +395,12 @@ func translateUnit(repo string, u unit) (g genOut, err error) {
 				dropped = append(dropped, fv.Name())
 			}
 		}
-		if len(p.stOpaque[sn]) > 0 {
+		for fld, ifaces := range u.asserts[sn] {
+			for _, in := range ifaces {
+				rf = append(rf, rfield{fld + "_is_" + in, "bool"}) // the dynamic type behind the field implements that interface
+			}
+		}
+		if len(p.stOpaque[sn]) > 0 || len(p.stBuf[sn]) > 0 {
 			rf = append(rf, rfield{"calls", "list ocall"})
 		}
 		p.stFields[sn] = flds
@@ -863,6 +915,7 @@ type fnCtx struct {
 	needClk  bool
 	clkUsed  bool
 	selfByValue bool                  // value receiver: field stores would be invisible to the caller
+	opaqueAlias map[types.Object]string // local variables that hold the value of an opaque field after a type assertion: the field's name
 	opaqueVars  map[types.Object]string // local variables that hold an element of an opaque slice field: the field's name
 	namedRes    []*types.Var
 	elemOverride string               // Gallina type of the elements of the range being translated (opaque slices)
@@ -902,7 +955,7 @@ type exits struct {
 }
 
 func (p *pkgCtx) newFn(name string) *fnCtx {
-	return &fnCtx{p: p, names: map[types.Object]string{}, taken: map[string]bool{}, fname: name, locals: map[types.Object]bool{}, handles: map[types.Object]bool{}, opaqueVars: map[types.Object]string{}}
+	return &fnCtx{p: p, names: map[types.Object]string{}, taken: map[string]bool{}, fname: name, locals: map[types.Object]bool{}, handles: map[types.Object]bool{}, opaqueVars: map[types.Object]string{}, opaqueAlias: map[types.Object]string{}}
 }
 
 func (f *fnCtx) nameOf(o types.Object) string {
@@ -1010,6 +1063,13 @@ func (p *pkgCtx) translateFunc(obj *types.Func) (txt string, nloops int, err err
 		fail("more than one reader or writer parameter")
 	}
 	stmts := fd.Body.List
+	if p.u.mutexBrackets && len(stmts) >= 2 && f.self != nil {
+		if mf := f.mutexCall(stmts[0], "Lock"); mf != "" {
+			if d, ok := stmts[1].(*ast.DeferStmt); ok && f.mutexCall(&ast.ExprStmt{X: d.Call}, "Unlock") == mf {
+				stmts = stmts[2:] // the lock bracket around the whole body
+			}
+		}
+	}
 	var named []*types.Var
 	for i := 0; i < sig.Results().Len(); i++ {
 		if v := sig.Results().At(i); v.Name() != "" && v.Name() != "_" {
@@ -1021,12 +1081,14 @@ func (p *pkgCtx) translateFunc(obj *types.Func) (txt string, nloops int, err err
 	if len(named) > 0 && len(named) == sig.Results().Len() && !f.eff {
 		// named results without any defer: locals that start at their zero values; a bare return returns them
 		hasDefer := false
-		ast.Inspect(fd.Body, func(n ast.Node) bool {
-			if _, ok := n.(*ast.DeferStmt); ok {
-				hasDefer = true
-			}
-			return true
-		})
+		for _, st := range stmts {
+			ast.Inspect(st, func(n ast.Node) bool {
+				if _, ok := n.(*ast.DeferStmt); ok {
+					hasDefer = true
+				}
+				return true
+			})
+		}
 		if !hasDefer {
 			plainNamed = true
 			f.namedRes = named
@@ -1513,6 +1575,58 @@ func (f *fnCtx) block(stmts []ast.Stmt, ex exits) string {
 	return ""
 }
 
+// recv.<field>.<method>() with the field a sync.Mutex: the field name
+func (f *fnCtx) mutexCall(st ast.Stmt, method string) string {
+	es, ok := st.(*ast.ExprStmt)
+	if !ok {
+		return ""
+	}
+	call, ok := es.X.(*ast.CallExpr)
+	if !ok || len(call.Args) != 0 {
+		return ""
+	}
+	sel, ok := call.Fun.(*ast.SelectorExpr)
+	if !ok || sel.Sel.Name != method {
+		return ""
+	}
+	inner, ok := sel.X.(*ast.SelectorExpr)
+	if !ok {
+		return ""
+	}
+	id, ok := inner.X.(*ast.Ident)
+	if !ok || f.p.info.ObjectOf(id) != f.self {
+		return ""
+	}
+	if !isNamed(f.p.info.TypeOf(inner), "sync", "Mutex") {
+		return ""
+	}
+	return inner.Sel.Name
+}
+
+// s.f with f a *bytes.Buffer field of the state receiver: the field name
+func (f *fnCtx) selfBuf(e ast.Expr) string {
+	sel, ok := e.(*ast.SelectorExpr)
+	if !ok || f.self == nil {
+		return ""
+	}
+	id, ok := sel.X.(*ast.Ident)
+	if !ok || f.p.info.ObjectOf(id) != f.self {
+		return ""
+	}
+	if f.p.stBuf[f.selfT][sel.Sel.Name] {
+		return sel.Sel.Name
+	}
+	return ""
+}
+
+// an external call without a result that concerns the receiver: appended to its call log
+func (f *fnCtx) logCall(field, method string, args []string) {
+	sn := f.nameOf(f.self)
+	callsF := fmt.Sprintf("%s_calls %s", f.selfT, sn)
+	line := fmt.Sprintf("let %s := set_%s_calls %s (%s ++ [OCall %s %s [%s]]) in", sn, f.selfT, sn, callsF, bytesLit(field), bytesLit(method), strings.Join(args, "; "))
+	f.pre = append(f.pre, func(k string) string { return line + "\n" + k })
+}
+
 // s.f with s the state receiver and f a carried field: the field name
 func (f *fnCtx) selfField(e ast.Expr) string {
 	sel, ok := e.(*ast.SelectorExpr)
@@ -1699,8 +1813,62 @@ func (f *fnCtx) isHandleExpr(e ast.Expr) bool {
 }
 
 func (f *fnCtx) assign(s *ast.AssignStmt, rest []ast.Stmt, ex exits) string {
+	if len(s.Lhs) == 2 && len(s.Rhs) == 1 && s.Tok == token.DEFINE {
+		// lw, ok := recv.field.(Iface) on an opaque field: lw is another name for the field, ok the record's flag
+		if ta, isTA := s.Rhs[0].(*ast.TypeAssertExpr); isTA && ta.Type != nil {
+			if of := f.selfOpaque(ta.X); of != "" {
+				in := ""
+				if nt, ok := f.p.info.TypeOf(ta.Type).(*types.Named); ok {
+					in = nt.Obj().Name()
+				}
+				okFlag := false
+				for _, a := range f.p.u.asserts[f.selfT][of] {
+					if a == in {
+						okFlag = true
+					}
+				}
+				if !okFlag {
+					fail("type assertion of %s to %s is not declared for the unit", of, in)
+				}
+				vid, ok1 := s.Lhs[0].(*ast.Ident)
+				oid, ok2 := s.Lhs[1].(*ast.Ident)
+				if !ok1 || !ok2 {
+					fail("type assertion into non-identifiers")
+				}
+				if vid.Name != "_" {
+					vo := f.p.info.ObjectOf(vid)
+					f.opaqueAlias[vo] = of
+				}
+				if oid.Name == "_" {
+					return f.block(rest, ex)
+				}
+				flag := fmt.Sprintf("%s_%s_is_%s %s", f.selfT, of, in, f.nameOf(f.self))
+				return f.then(fmt.Sprintf("let %s := %s in", f.nameOf(f.p.info.ObjectOf(oid)), flag), "", func() string { return f.block(rest, ex) })
+			}
+		}
+	}
 	if len(s.Lhs) == 1 && len(s.Rhs) == 1 {
 		lhs := s.Lhs[0]
+		if bf := f.selfBuf(lhs); bf != "" && s.Tok == token.ASSIGN {
+			sn := f.nameOf(f.self)
+			if id, ok := s.Rhs[0].(*ast.Ident); ok {
+				if _, isNil := f.p.info.ObjectOf(id).(*types.Nil); isNil {
+					return f.then(fmt.Sprintf("let %s := set_%s_%s %s None in", sn, f.selfT, bf, sn), "", func() string { return f.block(rest, ex) })
+				}
+			}
+			if ta, ok := s.Rhs[0].(*ast.TypeAssertExpr); ok {
+				if call, ok := ta.X.(*ast.CallExpr); ok && len(call.Args) == 0 {
+					if sel, ok := call.Fun.(*ast.SelectorExpr); ok && sel.Sel.Name == "Get" {
+						if pid, ok := sel.X.(*ast.Ident); ok && f.p.u.pools[pid.Name] {
+							// pool.Get().(*bytes.Buffer): an empty buffer (Close resets before Put, New makes an empty one)
+							f.logCall("", "pool.Get", nil)
+							return f.then(fmt.Sprintf("let %s := set_%s_%s %s (Some []) in", sn, f.selfT, bf, sn), "", func() string { return f.block(rest, ex) })
+						}
+					}
+				}
+			}
+			fail("assignment to buffer field %s of something other than nil or a pooled buffer", bf)
+		}
 		if f.eff && isHandle(f.p.info.TypeOf(s.Rhs[0])) {
 			// bufRdr := bufio.NewReader(src): another name for the implicit stream
 			id, ok := lhs.(*ast.Ident)
@@ -2743,7 +2911,7 @@ func (f *fnCtx) expr(e ast.Expr) string {
 				if g, ok := f.p.globals[o]; ok {
 					return g
 				}
-				if f.p.u.envVars[e.Name] && (isString(o.Type()) || isBool(o.Type())) {
+				if _, _, isInt := intInfo(o.Type()); f.p.u.envVars[e.Name] && (isString(o.Type()) || isBool(o.Type()) || isInt) {
 					return "env_" + e.Name // the current value of the package variable is a parameter
 				}
 				fail("package variable %s", e.Name)
@@ -2814,6 +2982,18 @@ func (f *fnCtx) expr(e ast.Expr) string {
 						return "true"
 					}
 				}
+			}
+			if bf := f.selfBuf(e.X); bf != "" {
+				if id, ok := e.Y.(*ast.Ident); ok {
+					if _, isNil := f.p.info.ObjectOf(id).(*types.Nil); isNil && (e.Op == token.EQL || e.Op == token.NEQ) {
+						r := fmt.Sprintf("buf_isnil (%s_%s %s)", f.selfT, bf, f.nameOf(f.self))
+						if e.Op == token.NEQ {
+							return "negb (" + r + ")"
+						}
+						return r
+					}
+				}
+				fail("buffer field %s compared with something other than nil", bf)
 			}
 			if of := f.selfOpaque(e.X); of != "" {
 				if id, ok := e.Y.(*ast.Ident); ok {
@@ -3125,6 +3305,59 @@ func (f *fnCtx) call(e *ast.CallExpr) string {
 		}
 	}
 	if sel, ok := e.Fun.(*ast.SelectorExpr); ok {
+		if bf := f.selfBuf(sel.X); bf != "" {
+			// methods of the *bytes.Buffer field: on its content; a nil buffer is a nil dereference
+			if len(f.cond) > 0 {
+				fail("buffer method under a short-circuit operator")
+			}
+			sn := f.nameOf(f.self)
+			get := fmt.Sprintf("%s_%s %s", f.selfT, bf, sn)
+			f.addGuard("negb (buf_isnil (" + get + "))")
+			upd := func(v string) {
+				line := fmt.Sprintf("let %s := set_%s_%s %s (%s) in", sn, f.selfT, bf, sn, v)
+				f.pre = append(f.pre, func(k string) string { return line + "\n" + k })
+			}
+			switch sel.Sel.Name {
+			case "WriteByte":
+				upd(fmt.Sprintf("Some (buf_bytes (%s) ++ [%s])", get, f.expr(e.Args[0])))
+				return "None" // the error result: always nil
+			case "Write":
+				a := paren(f.expr(e.Args[0]))
+				upd(fmt.Sprintf("Some (buf_bytes (%s) ++ %s)", get, a))
+				return fmt.Sprintf("(len %s, None)", a)
+			case "Bytes":
+				t := f.tmp("b")
+				line := fmt.Sprintf("let %s := buf_bytes (%s) in", t, get)
+				f.pre = append(f.pre, func(k string) string { return line + "\n" + k })
+				return t
+			case "Reset":
+				upd("Some []")
+				return "tt"
+			case "Cap", "Len":
+				if sel.Sel.Name == "Len" {
+					return fmt.Sprintf("len (buf_bytes (%s))", get)
+				}
+				// the capacity is not part of the content: answered by the environment
+				r := f.tmp("o")
+				callsF := fmt.Sprintf("%s_calls %s", f.selfT, sn)
+				line := fmt.Sprintf("let %s := ans (length (%s)) in\nlet %s := set_%s_calls %s (%s ++ [OCall %s %s []]) in", r, callsF, sn, f.selfT, sn, callsF, bytesLit(bf), bytesLit("Cap"))
+				f.pre = append(f.pre, func(k string) string { return line + "\n" + k })
+				return "oval_int " + r
+			}
+			fail("method %s of a buffer field", sel.Sel.Name)
+		}
+		if pid, ok := sel.X.(*ast.Ident); ok && f.p.u.pools[pid.Name] && sel.Sel.Name == "Put" && f.self != nil {
+			if len(e.Args) == 1 && f.selfBuf(e.Args[0]) != "" {
+				f.logCall("", "pool.Put", nil)
+				return "tt"
+			}
+			fail("pool.Put of something other than the receiver's buffer")
+		}
+		if id, ok := sel.X.(*ast.Ident); ok {
+			if of, isAl := f.opaqueAlias[f.p.info.ObjectOf(id)]; isAl {
+				return f.opaqueCall(of, sel.Sel.Name, e, "")
+			}
+		}
 		if of := f.selfOpaque(sel.X); of != "" {
 			return f.opaqueCall(of, sel.Sel.Name, e, "")
 		}
@@ -3438,6 +3671,10 @@ func (f *fnCtx) extern(fn *types.Func, e *ast.CallExpr) string {
 		}
 	case "(time.Duration).Nanoseconds":
 		return paren(f.expr(e.Fun.(*ast.SelectorExpr).X))
+	case "bytes.IndexByte":
+		if f.p.u.externs["bytes.IndexByte"] {
+			return fmt.Sprintf("bytes_IndexByte %s %s", arg(0), arg(1))
+		}
 	case "strings.EqualFold":
 		if f.p.u.externs["strings.EqualFold"] {
 			return fmt.Sprintf("strings_EqualFold %s %s", arg(0), arg(1))
